@@ -350,7 +350,10 @@ class ConcreteEngine:
         if n == 1:
             return 0
         if self.ci >= len(self.dec):
-            raise ReplayDiverged('ran out of recorded choices')
+            # the recorded trace ends where the failed obligation was evaluated; beyond that point any
+            # continuation will do (the obligation of interest has already been re-evaluated)
+            self.extended = True
+            return 0
         ch = self.dec[self.ci][0]
         self.ci += 1
         if ch >= n:
